@@ -650,10 +650,82 @@ def callable_family(ctx):
     impl.reset()
 
 
+def restriction_forms_family(ctx):
+    """validateWithProfile(name, value, profiles=R): R given as a single name, a tuple or a list is the same restriction;
+    whether the value is valid never depends on R (only which profile is reported as matching does), and it is the
+    verdict of validate().  Registered names that contain one another (the predefined ones do) included.  Search only."""
+    import cssutils
+    from cssutils.profiles import Profiles
+    P = Profiles(log=cssutils.log)
+    P.addProfile('CSS', {'x-r-short': 'short'})
+    P.addProfile('CSS x', {'x-r-long': 'long'})
+    P.addProfile('x', {'x-r-x': 'ex'})
+    names = list(P.profiles)
+    pairs = [('font-size-adjust', 'none'), ('font-size-adjust', '0.5'), ('src', 'url(a)'), ('font-family', 'x'), ('color', 'red'), ('color', 'rgba(1,2,3,0.5)'),
+             ('opacity', '0.5'), ('x-r-short', 'short'), ('x-r-long', 'long'), ('x-r-x', 'ex'), ('x-r-x', 'no'), ('width', '1px'), ('width', 'bogus'), ('unicode-range', 'u+0-7f'),
+             ('box-shadow', 'none'), ('z-index', '1')]
+    for n_, v_ in pairs:
+        try:
+            ref = bool(P.validate(n_, v_))
+            free = P.validateWithProfile(n_, v_)
+        except Exception as e:   # noqa
+            ctx.violation('raises', {'family': 'restriction-forms', 'name': n_, 'value': v_}, '%s: %s' % (type(e).__name__, e), KNOWN_PRED)
+            continue
+        if bool(free[0]) != ref:
+            ctx.violation('valid-iff', {'family': 'restriction-forms', 'name': n_, 'value': v_}, 'validate %r, validateWithProfile %r' % (ref, free), KNOWN_PRED)
+        for r_ in names:
+            got = {}
+            for form, arg in (('str', r_), ('tuple', (r_,)), ('list', [r_])):
+                ctx.case(('restriction', n_, v_, r_, form))
+                try:
+                    got[form] = tuple(P.validateWithProfile(n_, v_, arg))
+                except Exception as e:   # noqa
+                    got[form] = 'raised %s' % type(e).__name__
+            if len(set(map(repr, got.values()))) > 1:
+                ctx.violation('restriction-form', {'family': 'restriction-forms', 'name': n_, 'value': v_, 'profiles': r_},
+                              'the same restriction in three forms: %r' % got, KNOWN_PRED)
+            elif isinstance(got['str'], tuple) and bool(got['str'][0]) != ref:
+                ctx.violation('valid-iff', {'family': 'restriction-forms', 'name': n_, 'value': v_, 'profiles': r_},
+                              'restricted to %r: %r, but validate() says %r' % (r_, got['str'], ref), KNOWN_PRED)
+
+
+def default_profiles_reach_family(ctx):
+    """setting defaultProfiles changes which profile a value is matched against and nothing else: the listing of
+    properties (all, per profile), knownNames, profiles and validity stay what they were.  Search only."""
+    import cssutils
+    from cssutils.profiles import Profiles
+    pairs = [('color', 'red'), ('opacity', '0.5'), ('src', 'url(a)'), ('width', 'bogus'), ('x-none', '1'), ('font-size-adjust', 'none')]
+
+    def listing(P):
+        return {'all': sorted(P.propertiesByProfile()), 'known': sorted(P.knownNames), 'profiles': list(P.profiles),
+                'per': {n: sorted(P.propertiesByProfile(n)) for n in P.profiles},
+                'valid': [(bool(P.validate(n, v)), bool(P.validateWithProfile(n, v)[0])) for n, v in pairs]}
+    P = Profiles(log=cssutils.log)
+    P.addProfile('x-dp', {'x-dp-a': 'a'})
+    before = listing(P)
+    if before['all'] != before['known']:
+        ctx.violation('listing', {'family': 'default-profiles-reach'}, 'propertiesByProfile() lists %d names, knownNames %d' % (len(before['all']), len(before['known'])), KNOWN_PRED)
+    names = list(P.profiles)
+    for sub in [names[:1], names[1:2], names[-1:], names[:2], [names[0], names[-1]], names]:
+        ctx.case(('default-profiles-reach', tuple(sub)))
+        try:
+            P.defaultProfiles = sub
+            after = listing(P)
+        except Exception as e:  # noqa
+            ctx.violation('raises', {'family': 'default-profiles-reach', 'defaultProfiles': sub}, '%s: %s' % (type(e).__name__, e), KNOWN_PRED)
+            continue
+        if after != before:
+            d = [k for k in before if before[k] != after[k]]
+            ctx.violation('listing', {'family': 'default-profiles-reach', 'defaultProfiles': sub},
+                          'changed by setting defaultProfiles: %r (e.g. %d names listed, %d before)' % (d, len(after['all']), len(before['all'])), KNOWN_PRED)
+
+
 def run(ctx):
     from harness import impl
     quick = ctx.tier == 'quick'
     callable_family(ctx)
+    restriction_forms_family(ctx)
+    default_profiles_reach_family(ctx)
     nh, maxops = (220, 25) if quick else (2500, 25)
     rng = ctx.rng
     builtins = builtin_specs()
